@@ -198,7 +198,14 @@ func c08Images(c *fw.C, caseID string) {
 		// (an image of an empty store must reopen and accept the genesis)
 		N := simnet.Open("G", base+"/G", simnet.MockGenesis(), nil)
 		N.Stop()
-		raw1, err := simnet.RawDump(N.Dir)
+		// dumping opens LevelDB, which replays and rotates the journal: dump a copy, keep the original files
+		dumpDir := base + "/G-dump"
+		if err := c08copyDir(N.Dir, dumpDir); err != nil {
+			c.Inconclusive(err.Error())
+			return
+		}
+		raw1, err := simnet.RawDump(dumpDir)
+		os.RemoveAll(dumpDir)
 		if err != nil {
 			c.Inconclusive("cannot dump: " + err.Error())
 			return
@@ -210,6 +217,11 @@ func c08Images(c *fw.C, caseID string) {
 		}
 		data, _ := os.ReadFile(jf[0])
 		ends := c08RecordEnds(data)
+		c.Count("genesis_journal_records", len(ends))
+		if len(ends) == 0 {
+			c.Inconclusive("the genesis insert left no journal record to cut")
+			return
+		}
 		cuts := []int{0}
 		for i, e := range ends {
 			prev := 0
@@ -225,6 +237,15 @@ func c08Images(c *fw.C, caseID string) {
 				return
 			}
 			_ = os.WriteFile(filepath.Join(img, filepath.Base(jf[0])), data[:cut], 0o644)
+			// the image itself: exactly the empty store or exactly the store with the genesis
+			if rawImg, err := simnet.RawDump(img); err == nil {
+				c.Eval(1)
+				if len(rawImg) != 0 && len(simnet.DiffDumps(raw1, rawImg, 1)) > 0 {
+					c.Violation("crash-image-neither-before-nor-after genesis", map[string]interface{}{"cut": cut, "records": len(ends), "keys_in_image": len(rawImg), "keys_after": len(raw1), "diffs": simnet.DiffDumps(raw1, rawImg, 3)})
+					os.RemoveAll(img)
+					continue
+				}
+			}
 			ok := c08Reopen(c, img, func(n *simnet.Node) {
 				// after chain.Init the store must hold exactly the genesis state
 			})
